@@ -757,13 +757,20 @@ class Header:
         primary_hdr = pfits.PrimaryHdr(filename)
         subint_hdr = pfits.SubintHdr(filename)
 
+        foff = float(subint_hdr.freqs.foff.value)
+        fch1 = float(subint_hdr.freqs.fch1.value)
+        if foff > 0:
+            # PFITSFile.read_subints flips ascending data to descending order
+            fch1 = fch1 + (subint_hdr.nchans - 1) * foff
+            foff = -foff
+
         header: dict[str, Any] = {}
         hdr_update = {
             "filename": filename,
             "data_type": "filterbank",
             "nchans": subint_hdr.nchans,
-            "foff": float(subint_hdr.freqs.foff.value),
-            "fch1": float(subint_hdr.freqs.fch1.value),
+            "foff": foff,
+            "fch1": fch1,
             "nbits": subint_hdr.nbits,
             "tsamp": subint_hdr.tsamp,
             "tstart": primary_hdr.tstart.mjd,
